@@ -9,6 +9,7 @@ import (
 	"testing"
 
 	"github.com/ipld/go-ipld-prime"
+	"github.com/ipld/go-ipld-prime/codec/dagcbor"
 	"github.com/ipld/go-ipld-prime/codec/dagjson"
 	"pgregory.net/rapid"
 
@@ -29,6 +30,9 @@ type Case struct {
 	Sel  sel.Sel `json:"sel"`
 	Data val.V   `json:"data"`
 	Text string  `json:"text,omitempty"` // the selector text as given (fuzz target); Sel are the segments the reference grammar derives from it
+	// Repr: how the data node is represented in memory (the data-model value is the same): 0 built with the node
+	// builders, 1 every empty byte string without a backing array (nil), 2 decoded from its DAG-CBOR encoding
+	Repr int `json:"repr,omitempty"`
 }
 
 type outcome struct {
@@ -124,6 +128,19 @@ func run(c *h.Ctx, cs Case) {
 		text = cs.Sel.Text()
 	}
 	data := cs.Data.Node()
+	switch cs.Repr {
+	case 1:
+		data = cs.Data.NodeNilBytes()
+		c.P.Class("repr:nil-empty-bytes")
+	case 2:
+		if b, err := ipld.Encode(data, dagcbor.Encode); err == nil {
+			if d2, err := ipld.Decode(b, dagcbor.Decode); err == nil {
+				data = d2
+				cs.Data = val.FromNode(d2) // the decoded map lists its keys in DAG-CBOR order: that is the value the selector sees
+				c.P.Class("repr:decoded-dag-cbor")
+			}
+		}
+	}
 	got, perr := implSelect(text, data)
 	if perr != nil {
 		if got.err != "" {
@@ -267,7 +284,7 @@ func draw(t *rapid.T) Case {
 		}
 	}
 	s := sel.GenFor(t, data, sel.GenCfg{MaxSegs: 6})
-	return Case{Sel: s, Data: data}
+	return Case{Sel: s, Data: data, Repr: rapid.SampledFrom([]int{0, 0, 1, 1, 2}).Draw(t, "repr")}
 }
 
 var prop = h.Define(P, "select", draw, run)
